@@ -660,7 +660,7 @@ fn gen_file(g: &mut FileGen, rng: &mut Rng, includes: &[&str], header: bool, his
     let lines = rng.range(3, 12);
     let mut open_ifs = 0;
     for _ in 0..lines {
-        match rng.below(14) {
+        match rng.below(17) {
             0 | 1 => {
                 // object-like macro
                 g.counter += 1;
@@ -683,8 +683,51 @@ fn gen_file(g: &mut FileGen, rng: &mut Rng, includes: &[&str], header: bool, his
             }
             4 if !pending.is_empty() => {
                 let f = pending.remove(0);
-                out.push_str(&format!("#include \"{}\"", f));
+                // both spellings of the file name (string literal / header name), white space and a comment around it
+                match rng.below(4) {
+                    0 => {
+                        out.push_str(&format!("#include <{}>", f));
+                        hist.add("pp.gen.include_angle");
+                    }
+                    1 => {
+                        out.push_str(&format!("#  include   \"{}\"  // c", f));
+                        hist.add("pp.gen.include_spaced");
+                    }
+                    _ => out.push_str(&format!("#include \"{}\"", f)),
+                }
                 hist.add("pp.gen.include");
+            }
+            14 if open_ifs > 0 => {
+                // `#elif` (wave 6): constant, defined(..) of a known / unknown name, arithmetic
+                let c = match rng.below(5) {
+                    0 => "#elif 1".to_string(),
+                    1 => "#elif 0".to_string(),
+                    2 if !g.macros.is_empty() => format!("#elif defined({})", rng.pick(&g.macros).0),
+                    3 => "#elif !defined(NOT_DEFINED_ZQ) && (0x10 == 16)".to_string(),
+                    _ => "#elif defined NOT_DEFINED_ZQ || 2 > 3".to_string(),
+                };
+                out.push_str(&c);
+                out.push_str(eol);
+                out.push_str(&text_line(g, rng, hist));
+                hist.add("pp.gen.elif");
+            }
+            15 => {
+                // conditions with operators, literals of every base, `defined` in both spellings
+                let c = match rng.below(6) {
+                    0 => "#if (2 > 1) && 1".to_string(),
+                    1 => "#if 010 == 8 && 0x1F != 30".to_string(),
+                    2 if !g.macros.is_empty() => format!("#if defined({}) || 0", rng.pick(&g.macros).0),
+                    3 if !g.macros.is_empty() => format!("#if !defined {}", rng.pick(&g.macros).0),
+                    4 => "#if 0 // off\n#unknown_directive 1.5.5 \"\n#endif\n#if 1".replace('\n', eol),
+                    _ => "#if !0".to_string(),
+                };
+                out.push_str(&c);
+                open_ifs += 1;
+                hist.add("pp.gen.if_expr");
+            }
+            16 => {
+                out.push_str(*rng.pick(&["#pragma warning(disable: 4000)", "#pragma warning(push)", "# pragma once", "#", "# // empty"]));
+                hist.add("pp.gen.pragma_or_null");
             }
             5 => {
                 let c = match rng.below(4) {
@@ -802,14 +845,15 @@ fn gen_pp_program(rng: &mut Rng, hist: &mut Hist) -> (Vec<(String, String)>, Vec
 
 /// a multi-file program that type checks, with slots; the slot that receives the error decides where the
 /// diagnostic has to be
-const DIAG_MAIN: &str = "#include \"a.h\"\n#define ADD(x, y) ((x) + (y))\n#define CAT(a, b) a ## b\nstatic const int g0 = @0@;\nint f0(int p) { return ADD(p, @1@) + A_CONST + CAT(@2@, 1); }\nvoid f1() {\n    int v = B_FN(@3@);\n    v = DV + @4@;\n    v = a_fn(@10@) /* c */ + @11@;\n}\n";
+const DIAG_MAIN: &str = "#include \"a.h\"\n#define ADD(x, y) ((x) + (y))\n#define CAT(a, b) a ## b\nstatic const int g0 = @0@;\nint f0(int p) { return ADD(p, @1@) + A_CONST + CAT(@2@, 1); }\nvoid f1() {\n    int v = B_FN(@3@);\n    v = DV + @4@;\n    v = a_fn(@10@) /* c */ + @11@;\n}\nint d0(int p = @13@) { return p; }\nstruct S0 { int m0(int q) { return q + @14@; } };\nnamespace N0 { static const int n0 = @15@; }\nvoid f2(int s) { switch (s) { case @16@: break; default: break; } }\nstruct S1 { float arr0[@17@]; };\n[numthreads(@18@, 1, 1)] void f3() {}\ntemplate<int N> int t0() { return N + @19@; }\nvoid f4() { t0<4>(); d0(); }\n";
 const DIAG_A: &str = "#pragma once\n#include \"inc/b.h\"\n#define A_CONST (@5@ + 1)\nint a_fn(int q) { return q * @6@; }\n";
 const DIAG_B: &str = "// header b\n#define B_FN(z) (z + @7@)\nstatic const int b_g = @8@;\n";
 const DIAG_DEFINE: &str = "@9@ + 2";
 
 fn gen_diag(rng: &mut Rng, hist: &mut Hist) -> (String, Vec<(String, String)>, Vec<(String, String)>) {
-    let slot = rng.below(13);
-    // slot 12: no error at all
+    let slot = rng.below(20);
+    // slot 12: no error at all; 13..19 (wave 6): default argument, method body, reopened-able namespace, case label, array size,
+    // attribute argument, function template body
     let kind = *rng.pick(&["ident", "lexchar", "badfloat", "bigint", "string", "paren", "dollar"]);
     let bad = match kind {
         "ident" => "zq9",
@@ -823,7 +867,7 @@ fn gen_diag(rng: &mut Rng, hist: &mut Hist) -> (String, Vec<(String, String)>, V
     let lexer_kind = matches!(kind, "lexchar" | "badfloat" | "bigint" | "string" | "dollar");
     let fill = |tpl: &str, rng: &mut Rng| -> String {
         let mut s = tpl.to_string();
-        for k in (0..12).rev() {
+        for k in (0..20).rev().filter(|k| *k != 12) {
             let key = format!("@{}@", k);
             if s.contains(&key) {
                 let v = if k == slot {
@@ -854,7 +898,7 @@ fn gen_diag(rng: &mut Rng, hist: &mut Hist) -> (String, Vec<(String, String)>, V
     let files = vec![("main.rssl".to_string(), main), ("a.h".to_string(), a), ("inc/b.h".to_string(), b)];
     let defines = vec![("DV".to_string(), dv)];
     let home = match slot {
-        0 | 1 | 3 | 4 | 10 | 11 => "main.rssl",
+        0 | 1 | 3 | 4 | 10 | 11 | 13..=19 => "main.rssl",
         2 => if lexer_kind || kind == "paren" { "main.rssl" } else { "<scratch space>" },
         5 | 6 => "a.h",
         7 | 8 => "inc/b.h",
